@@ -24,6 +24,7 @@ type Case struct {
 	Spelling string `json:"header_name_spelling"`
 	Repeated bool   `json:"repeated_fields"`
 	Service  string `json:"service"`
+	UriForm  string `json:"x_forwarded_uri_form,omitempty"` // "" (origin form) | authority | absolute
 }
 
 var trustedMenu = map[string]*[]string{
@@ -36,11 +37,14 @@ var trustedMenu = map[string]*[]string{
 	"nonsense":          {"nonsense"},
 	"300.1.1.1/8":       {"300.1.1.1/8"},
 	"nonsense+10.0.0.1": {"nonsense", "10.0.0.1"},
+	"2001:db8:1::10":    {"2001:db8:1::10"},
 }
 
-var trustedOrder = []string{"unset", "empty", "10.0.0.1", "10.0.0.0/8", "fd00::/8", "::1", "nonsense", "300.1.1.1/8", "nonsense+10.0.0.1"}
+var trustedOrder = []string{"unset", "empty", "10.0.0.1", "10.0.0.0/8", "fd00::/8", "::1", "nonsense", "300.1.1.1/8", "nonsense+10.0.0.1",
+	"2001:db8:1::10"}
 
-var peers = []string{"10.0.0.1:4711", "10.9.9.9:4711", "192.168.1.1:4711", "[fd00::1]:4711", "[::1]:4711", "[fe80::1%eth0]:4711", "@"}
+var peers = []string{"10.0.0.1:4711", "10.9.9.9:4711", "192.168.1.1:4711", "[fd00::1]:4711", "[::1]:4711", "[fe80::1%eth0]:4711", "@",
+	"[2001:db8:1::10]:4711", "[2001:db8:2::1]:4711", "[2001:db8:1::11]:4711"}
 
 var fwdHeaders = []struct{ name, value, alt string }{
 	{"Forwarded", "for=9.9.9.9;proto=https;host=evil.example", "for=9.9.9.8"},
@@ -52,7 +56,7 @@ var fwdHeaders = []struct{ name, value, alt string }{
 	{"X-Forwarded-Method", "DELETE", "PATCH"},
 }
 
-var spoofed = []string{"9.9.9.9", "9.9.9.8", "8.8.8.8", "8.8.4.4", "evil.example", "other.example", "/admin", "/other", "DELETE", "PATCH", "ftp"}
+var spoofed = []string{"uri-host.example", "9.9.9.9", "9.9.9.8", "8.8.8.8", "8.8.4.4", "evil.example", "other.example", "/admin", "/other", "DELETE", "PATCH", "ftp"}
 
 func spell(name, how string) string {
 	switch how {
@@ -220,7 +224,17 @@ func (cs *Case) request(withHeaders bool) *hx.Req {
 				continue
 			}
 
-			r.Header = append(r.Header, [2]string{spell(h.name, cs.Spelling), h.value})
+			value := h.value
+			if h.name == "X-Forwarded-Uri" {
+				switch cs.UriForm {
+				case "authority":
+					value = "//uri-host.example" + value
+				case "absolute":
+					value = "ftp://uri-host.example" + value
+				}
+			}
+
+			r.Header = append(r.Header, [2]string{spell(h.name, cs.Spelling), value})
 			if cs.Repeated {
 				r.Header = append(r.Header, [2]string{spell(h.name, cs.Spelling), h.alt})
 			}
@@ -469,9 +483,24 @@ func cases(quick bool) []Case {
 				for _, sp := range spellings {
 					for _, rep := range reps {
 						for _, svc := range []string{"decision", "proxy"} {
-							out = append(out, Case{t, p, s, sp, rep, svc})
+							out = append(out, Case{t, p, s, sp, rep, svc, ""})
 						}
 					}
+				}
+			}
+		}
+	}
+
+	// X-Forwarded-Uri in authority / absolute form: only path and query may be taken from it
+	for _, form := range []string{"authority", "absolute"} {
+		for _, peer := range []string{"10.0.0.1:4711", "10.9.9.9:4711"} {
+			for s := 0; s < 1<<len(fwdHeaders); s++ {
+				if s&(1<<4) == 0 {
+					continue
+				}
+
+				for _, svc := range []string{"decision", "proxy"} {
+					out = append(out, Case{Trusted: "10.0.0.1", Peer: peer, Subset: s, Spelling: "canonical", Service: svc, UriForm: form})
 				}
 			}
 		}
@@ -482,7 +511,7 @@ func cases(quick bool) []Case {
 		for _, sp := range []string{"lower", "mixed"} {
 			for s := 0; s < 1<<len(fwdHeaders); s += 5 {
 				for _, svc := range []string{"decision", "proxy"} {
-					out = append(out, Case{"10.0.0.1", "10.9.9.9:4711", s, sp, true, svc}, Case{"10.0.0.1", "10.0.0.1:4711", s, sp, true, svc})
+					out = append(out, Case{"10.0.0.1", "10.9.9.9:4711", s, sp, true, svc, ""}, Case{"10.0.0.1", "10.0.0.1:4711", s, sp, true, svc, ""})
 				}
 			}
 		}
